@@ -417,8 +417,30 @@ let buckets file =
    with End_of_file -> ());
   close_in ic
 
+(* the Coq reader [Load.load] (proved: load (render s) = s) on real files *)
+let read_file path : bytes =
+  let ic = open_in_bin path in
+  let n = in_channel_length ic in
+  let s = really_input_string ic n in
+  close_in ic;
+  List.init n (fun i -> n_of_int (Char.code s.[i]))
+
+let load_files dir name =
+  let f e = read_file (Filename.concat dir (name ^ "." ^ e)) in
+  match load KBytes ((f "htx", f "key"), f "val") with
+  | Ok s ->
+    (match contents s with
+     | Ok l ->
+       let items = List.sort compare (List.map (fun (k, v) -> show k ^ "=" ^ show v) l) in
+       Printf.printf "load ok n=%s count=%s entries=%d %s\n" (decimal_of_n s.hx.nb) (decimal_of_n s.hx.count) (List.length l) (String.concat " " items)
+     | _ -> print_endline "load bad:contents")
+  | Panic t -> Printf.printf "load bad:panic:%s\n" (tagname t)
+  | OutOfFuel -> print_endline "load bad:cycle"
+  | IoErr -> print_endline "load bad:ioerr"
+
 let () =
   match Array.to_list Sys.argv with
+  | [ _; "load"; dir; name ] -> load_files dir name
   | _ :: "run" :: file :: rest ->
     (match rest with "--dump" :: d :: _ -> dumpdir := Some d | _ -> ());
     run_ops file
